@@ -9,7 +9,7 @@
  *                                          {0(off),1..12,250..255} (+ algorithm and metadata-position variants), all leaves checked
  *   rnd   <seed> <ntrees>                  random level mixes 0..255, metadata leaves, max levels, invalid levels, leaf processor
  *   carry <seed> <nscen>                   max level off: refusal in the middle of a carry chain, then more leaves, close, all proofs
- *   leak  <seed> <nscen>                   refusal paths that only can leak (leaf processor + level overflow; close overflow)
+ *   leak  <seed> <nscen>                   the same behind a leaf processor (max level off): memory safe at best, the joined node is lost
  *   bs    <seed> <nblocks>                 block signer: masking x metadata x reset, signing through a simulated aggregator
  *   tree  <spec>                           replay of one tree: a<algo>,x<max>,p<proc>,s<seed>:h0,m1,h255,...
  *   block <algo> <masking> <ivhex|-> <seed> <resets> <level[m],...>   replay of one block signer case
@@ -270,20 +270,32 @@ static const char *tclass(const Tree *t, int refused) {
 }
 #define VIOL(t, refused, what, ...) do { char key_[160]; char *sp_ = tree_spec(t); snprintf(key_, sizeof key_, "treebuilder:%s:%s", what, tclass(t, refused)); vh_viol(key_, sp_, __VA_ARGS__); free(sp_); } while (0)
 
-/* Free sub-trees that a failed KSI_TreeBuilder_close left unreachable (white-box). They are counted and reported as an
- * observation: a leak is not among the things the C16 statement forbids. */
-static int free_orphans(KSI_TreeBuilder *b, Tree *t) {
-	static KSI_TreeNode *tops[RF_SLOTS * 2]; int nt = 0, i, j, k;
-	for (i = 0; i < t->n; i++) {
-		KSI_TreeNode *nd = NULL;
-		if (!t->lv[i].accepted || !t->lv[i].h) continue;
-		KSI_TreeLeafHandle_getTreeNode(t->lv[i].h, &nd);
-		if (!nd) continue;
-		while (nd->parent) nd = nd->parent;
+/* Free sub-trees that a failed KSI_TreeBuilder_close left unreachable (white-box; the stack is snapshotted before the close).
+ * They are counted and reported as an observation: a leak is not among the things the C16 statement forbids. Nodes the
+ * library freed itself are recognised through the ASan shadow and not touched. */
+#if defined(__has_feature)
+#if __has_feature(address_sanitizer) && !defined(__SANITIZE_ADDRESS__)
+#define __SANITIZE_ADDRESS__ 1
+#endif
+#endif
+#if defined(__SANITIZE_ADDRESS__)
+#include <sanitizer/asan_interface.h>
+#define NODE_GONE(p) __asan_address_is_poisoned(p)
+#else
+#define NODE_GONE(p) 0
+#endif
+static KSI_TreeNode *snap[KSI_TREE_BUILDER_STACK_LEN];
+static void snapshot_stack(KSI_TreeBuilder *b) { int j; for (j = 0; j < KSI_TREE_BUILDER_STACK_LEN; j++) snap[j] = b->stack[j]; }
+static int free_orphans(KSI_TreeBuilder *b) {
+	static KSI_TreeNode *tops[KSI_TREE_BUILDER_STACK_LEN]; int nt = 0, i, j, k;
+	for (i = 0; i < KSI_TREE_BUILDER_STACK_LEN; i++) {
+		KSI_TreeNode *nd = snap[i];
+		if (!nd || NODE_GONE(nd)) continue;
+		while (nd->parent && !NODE_GONE(nd->parent)) nd = nd->parent;
 		if (nd == b->rootNode) continue;
 		for (k = 0, j = 0; j < KSI_TREE_BUILDER_STACK_LEN; j++) if (b->stack[j] == nd) k = 1;
 		for (j = 0; j < nt; j++) if (tops[j] == nd) k = 1;
-		if (!k && nt < RF_SLOTS * 2) tops[nt++] = nd;
+		if (!k) tops[nt++] = nd;
 	}
 	for (j = 0; j < nt; j++) KSI_TreeNode_free(tops[j]);
 	return nt;
@@ -291,7 +303,7 @@ static int free_orphans(KSI_TreeBuilder *b, Tree *t) {
 
 static void run_tree(Tree *t) {
 	KSI_TreeBuilder *b = NULL; static RF rf; static LF lf; RN root; int i, res, refused = 0, naccepted = 0, aborted = 0, closable, midcarry = 0; ProcCtx pc; KSI_TreeBuilderLeafProcessor proc;
-	char *spec = tree_spec(t);
+	char *spec = tree_spec(t); int viol0 = vh_nviol;
 	vh_case("%s tree %s", t->mode, spec);
 	vh_fp(tree_fp(t));
 	for (i = 0; i < t->n; i++) { t->lv[i].h = NULL; t->lv[i].accepted = 0; }
@@ -367,19 +379,20 @@ static void run_tree(Tree *t) {
 	}
 	closable = lf_close_level(&lf, -1) <= 255;
 	vh_eval++;
+	snapshot_stack(b);
 	res = KSI_TreeBuilder_close(b);
 	if (!closable) {
 		/* the close-time merge leaves 0..255 (only possible with the maximum level switched off): the statement does not say
 		 * what has to happen - only a successful close is impossible */
 		if (res == KSI_OK) { VIOL(t, refused, "close-ok-level-overflow", "close succeeded although the merge of the forest exceeds level 255 (root level %u)", b->rootNode ? b->rootNode->level : 0); }
-		else { int no = free_orphans(b, t); vh_count("close_refused_level_overflow", 1); if (no) vh_count("close_refused_orphaned_subtrees", (uint64_t)no); vh_count("skipped_out_of_domain", 1); }
+		else { int no = free_orphans(b); vh_count("close_refused_level_overflow", 1); if (no) vh_count("close_refused_orphaned_subtrees", (uint64_t)no); vh_count("skipped_out_of_domain", 1); }
 		goto done;
 	}
 	if (res == KSI_OK && b->rootNode != NULL && b->rootNode->hash == NULL && b->rootNode->metaData != NULL && b->rootNode->leftChild == NULL) {
 		/* the only accepted leaf is a metadata leaf: the "root" is that leaf, there is no root hash to prove against */
 		vh_count("single_metadata_leaf_root", 1); vh_count("skipped_out_of_domain", 1); goto done;
 	}
-	if (res != KSI_OK || b->rootNode == NULL || b->rootNode->hash == NULL) { VIOL(t, refused, "close-fails", "close = %d with %d accepted leaves (reference: closable)", res, naccepted); free_orphans(b, t); goto done; }
+	if (res != KSI_OK || b->rootNode == NULL || b->rootNode->hash == NULL) { VIOL(t, refused, "close-fails", "close = %d with %d accepted leaves (reference: closable)", res, naccepted); free_orphans(b); goto done; }
 	{
 		const unsigned char *rp; size_t rpn; int rlevel = (int)b->rootNode->level, forest_ok = 1; static RLink lk[MAXLINKS];
 		KSI_DataHash_getImprint(b->rootNode->hash, &rp, &rpn);
@@ -417,7 +430,7 @@ static void run_tree(Tree *t) {
 		else if (rf_close(&rf, t->algo, &root) != 0) VIOL(t, refused, "root-not-canonical-merge", "reference merge overflows but the builder closed");
 		else if (root.n != rpn || memcmp(root.d, rp, rpn) || root.level != rlevel) { char *hx = vh_hex(root.d, root.n), *hr = vh_hex(rp, rpn); VIOL(t, refused, "root-not-canonical-merge", "%d accepted leaves: reference merge %s level %d, builder root %s level %d", naccepted, hx, root.level, hr, rlevel); free(hx); free(hr); }
 		else { vh_count("roots_canonical", 1); if (refused) vh_count("roots_canonical_after_refusal", 1); if (midcarry) vh_count("roots_canonical_after_mid_carry_refusal", 1); }
-		if (vh_nsample < 3 && naccepted > 2 && (refused || t->maxlvl > 0)) { char *hr = vh_hex(rp, rpn); vh_sample("%s: %d leaves accepted, %d refused, root %s level %d - every proof folds to it", spec, naccepted, refused, hr, rlevel); free(hr); }
+		if (vh_nsample < 3 && vh_nviol == viol0 && naccepted > 2 && (refused || t->maxlvl > 0)) { char *hr = vh_hex(rp, rpn); vh_sample("%s: %d leaves accepted, %d refused, root %s level %d - every proof folds to it", spec, naccepted, refused, hr, rlevel); free(hr); }
 	}
 	vh_count("trees_closed_and_checked", 1);
 done:
@@ -691,13 +704,23 @@ static int get_prev(KSI_BlockSigner *s, unsigned char *out, size_t *outn) {
 
 /* adds the leaves, signs, checks every signature; fills r (serialised signatures are kept for the reset-vs-fresh comparison) */
 static void run_block(KSI_BlockSigner *s, const BParams *bp, BLeaf *lv, int n, const char *phase, BResult *r) {
-	static KSI_BlockSignerHandle *hd[64]; static SChain ch[AGG_MAXCH + 2]; static RF rf; int i, res; RN root; unsigned char prevb[RN_MAX]; size_t prevn;
+	static KSI_BlockSignerHandle *hd[64]; static SChain ch[AGG_MAXCH + 2]; static RF rf; int i, res, nforest = 0, viol0 = vh_nviol; RN root; unsigned char prevb[RN_MAX]; size_t prevn;
 	memset(r, 0, sizeof *r); r->n = n;
 	get_prev(s, prevb, &prevn);
 	if (bp->masking ? (prevn != bp->prev.n || memcmp(prevb, bp->prev.d, prevn)) : prevn != 0) BVIOL("initial-prevleaf-wrong", "previous leaf of a new/reset signer is not the one given at creation");
 	for (i = 0; i < n; i++) {
 		KSI_DataHash *h = mk_hash(lv[i].h.ref.d, lv[i].h.ref.n); KSI_MetaData *md = lv[i].has_md ? mk_md(&lv[i].md) : NULL;
 		hd[i] = NULL;
+		if (vh_mix(bp->seed, 0xbad + (uint64_t)i) % 16 == 0) {
+			/* a leaf whose level is outside 0..255 is refused and changes nothing (same injection for the reset and the fresh signer) */
+			static const int BADL[] = {-1, 256, 100000, INT_MIN}; KSI_BlockSignerHandle *bh = NULL; unsigned char pb[RN_MAX]; size_t pbn; int bl = BADL[vh_mix(bp->seed, (uint64_t)i) % 4];
+			vh_eval++;
+			res = KSI_BlockSigner_addLeaf(s, h, bl, md, &bh);
+			get_prev(s, pb, &pbn);
+			if (res == KSI_OK) { BVIOL("accepted-level-out-of-range", "leaf with level %d accepted", bl); KSI_BlockSignerHandle_free(bh); KSI_DataHash_free(h); KSI_MetaData_free(md); n = i; break; }
+			else if (i ? (pbn != r->prevn[i - 1] || memcmp(pb, r->prev[i - 1], pbn)) : (bp->masking ? (pbn != bp->prev.n || memcmp(pb, bp->prev.d, pbn)) : pbn != 0)) BVIOL("refused-leaf-changes-prevleaf", "leaf with level %d refused but the previous-leaf value changed", bl);
+			else vh_count("block_invalid_level_refused", 1);
+		}
 		vh_eval++;
 		res = KSI_BlockSigner_addLeaf(s, h, lv[i].h.level, md, &hd[i]);
 		KSI_DataHash_free(h); KSI_MetaData_free(md);
@@ -761,13 +784,16 @@ static void run_block(KSI_BlockSigner *s, const BParams *bp, BLeaf *lv, int n, c
 			if (ref_fold(leafch->algo, &start, leafch->lk, nproc, &sub) != 0) { BVIOL("processor-links-missing", "leaf %d: level overflow below the forest", i); continue; }
 		}
 		if (rf_add(&rf, bp->algo, &sub) != 0) BVIOL("root-not-canonical-merge", "leaf %d: reference forest overflows level 255 although the block was signed", i);
+		else nforest++;
 	}
 	/* the root that was sent for signing is the canonical merge of the (masked / metadata-bound) leaves */
 	vh_eval++;
-	if (rf_close(&rf, bp->algo, &root) != 0 || root.n != r->rootn || memcmp(root.d, r->root, root.n) || root.level != r->rootlevel) {
+	if (nforest != n) vh_count("merge_not_compared", 1);       /* a leaf's node could not be derived: reported above */
+	else if (rf_close(&rf, bp->algo, &root) != 0) BVIOL("root-not-canonical-merge", "%d leaves: reference merge overflows, signed root level %d", n, r->rootlevel);
+	else if (root.n != r->rootn || memcmp(root.d, r->root, root.n) || root.level != r->rootlevel) {
 		char *a = vh_hex(root.d, root.n), *b = vh_hex(r->root, r->rootn); BVIOL("root-not-canonical-merge", "%d leaves: reference merge %s level %d, signed root %s level %d", n, a, root.level, b, r->rootlevel); free(a); free(b);
 	} else vh_count("block_roots_canonical", 1);
-	if (vh_nsample < 3 && n > 2 && bp->masking && strcmp(phase, "fresh")) { char *hx = vh_hex(r->root, r->rootn), *sp = block_spec(bp, lv, n, phase); vh_sample("%s: root %s level %d signed by the simulated aggregator (%d chains); %d signatures prove their leaf", sp, hx, r->rootlevel, agg.nchains, n); free(hx); free(sp); }
+	if (vh_nsample < 3 && vh_nviol == viol0 && n > 2 && bp->masking && strcmp(phase, "fresh")) { char *hx = vh_hex(r->root, r->rootn), *sp = block_spec(bp, lv, n, phase); vh_sample("%s: root %s level %d signed by the simulated aggregator (%d chains); %d signatures prove their leaf", sp, hx, r->rootlevel, agg.nchains, n); free(hx); free(sp); }
 	vh_count("blocks_signed_and_checked", 1);
 done:
 	for (i = 0; i < r->n; i++) { KSI_BlockSignerHandle_free(hd[i]); hd[i] = NULL; }
